@@ -5,10 +5,10 @@ RULE = ("an evaluation is one generated size-limit test case (unary, client stre
         "expand directive with delta in {0,-1,-2,-3,+1,+2,+3,+10,-10}, at the varint boundaries of the padding length (127/128/129, 16383/16384/16385), around the template's own size "
         "and at total size -1/0/1), drawn from its own tape. Load phase (real parseTestSuites): the case must be rejected with an error exactly when the size is unreachable (decided by an "
         "independent size formula), never crash, and an accepted case must have every expanded request at exactly limit+delta with nothing but the padding field changed. Run phase: the "
-        "real runner + reference client send the case to the real reference server over the simulated network under the shard's protocol/HTTP version/compression: delta <= 0 must be "
+        "real runner + reference client (server mode: reference server as the peer under test; client mode: reference client under test against the reference server in reference mode, whose interceptors are then active) send the case to the real reference server over the simulated network under the shard's protocol/HTTP version/compression: delta <= 0 must be "
         "accepted (the server echoes the request it received, which the runner compares), delta >= 1 must be rejected with resource_exhausted. Distinct by construction; non-trivial = accepted by the loader and executed.")
 
 
 def main(args, cfg):
-    return G.run_gen(args, "C19", "size", (("server", "referenceserver"),), RULE,
+    return G.run_gen(args, "C19", "size", (("server", "referenceserver"), ("client", "referenceclient")), RULE,
                      ["the mirrored clause for the reference client's receive limit is only covered by the embedded client_message_size suite inside C01 (the repository itself notes that response sizes cannot be set exactly)"])
